@@ -28,7 +28,7 @@ INFO = {
          TB + "Series satisfy until = from + n*step within 32 bits."),
  "C15": ("fuzzing with structure-aware mutation of specification-encoded messages, executed in an RLIMIT_AS-sandboxed child with allocation accounting (rapid)",
          "Random and mutated byte strings are fed to every decoder, to Open + operations on the opened handle, and to the client-side decoders through a hostile HTTP server; a panic, child death or allocation beyond 1 MiB + 64 x input is a violation. Exploration.",
-         TB + "Hangs are reported as inconclusive; allocation measured with runtime/metrics."),
+         TB + "A hang is confirmed by a second run of the same input in a fresh process (20 s + 90 s) and then reported as a violation; allocation measured with runtime/metrics."),
  "C19": ("round-trip PBT + independent big-integer / calendar evaluation of generated strings (rapid); exhaustive enumeration of all 2^31 durations, 2^32 timestamps and all strings up to length 5 in the thorough tier",
          "parse(print(x)) == x and exact-meaning checks on generated values and strings; the thorough tier enumerates the two 32-bit domains and the short-string space completely, through the same judges. Exploration (exhaustive on the enumerated sub-domains).",
          TB + "Years outside 1970-2106, redundant leading zeros and fractional seconds get no verdict."),
